@@ -1,6 +1,7 @@
 """C13 — a restarted stateful algorithm continues exactly like one that never stopped."""
 import copy
 import json
+import math
 import os
 import shutil
 import tempfile
@@ -300,6 +301,42 @@ def run(tier, seed):
                {'space': repr(prob_used.search_space)[:400], 'steps': steps, 'restarts': sorted(rs), 'seed': sd, 'first_differing_step': first,
                 'live': live[first], 'restarted': got[first]})
           break
+
+  # ---------------------------------------------------------------- the array encoding every population / state dump goes through
+  # (vizier/utils/json_utils.py): what is read back is the array that was written - dtype, shape and every entry, the special
+  # values +-inf and nan of objective columns included
+  try:
+    import json as _json
+    from vizier.utils import json_utils as _ju
+    specials = [0.0, -0.0, 1.5, -2.25, 1e300, -1e300, 5e-324, math.inf, -math.inf, math.nan]
+    for ai in range(40 if quick else 400):
+      dt = r.choice(['float64', 'float64', 'float32', 'int64', 'int32', 'bool'])
+      shape = r.choice([(0,), (3,), (2, 2), (4, 1), (0, 3), (2, 0, 2), (1, 5)])
+      n_ = int(np.prod(shape))
+      if dt.startswith('float'):
+        vals = [r.choice(specials) if r.random() < 0.5 else r.uniform(-10, 10) for _ in range(n_)]
+      elif dt == 'bool':
+        vals = [r.random() < 0.5 for _ in range(n_)]
+      else:
+        vals = [r.randrange(-2 ** 31, 2 ** 31) for _ in range(n_)]
+      arr = np.array(vals, dtype=dt).reshape(shape)
+      rep.case({'array_dump': dt, 'shape': list(shape), 'special_entries': int(dt.startswith('float') and not np.isfinite(arr).all())},
+               dt.startswith('float') and not np.isfinite(arr).all())
+      rep.count('array_dump_' + dt)
+      try:
+        back = _json.loads(_json.dumps({'a': arr, 'nested': {'b': [arr]}}, cls=_ju.NumpyEncoder), object_hook=_ju.numpy_hook)
+        for b_ in (back['a'], back['nested']['b'][0]):
+          same = isinstance(b_, np.ndarray) and b_.dtype == arr.dtype and b_.shape == arr.shape and \
+              (np.array_equal(b_, arr, equal_nan=True) if dt.startswith('float') else np.array_equal(b_, arr)) and \
+              (not dt.startswith('float') or np.array_equal(np.signbit(b_), np.signbit(arr)))
+          if not same:
+            viol('an array written into a state dump (NumpyEncoder) is not the array read back (numpy_hook)',
+                 {'dtype': dt, 'shape': list(shape), 'written': repr(arr.tolist())[:300], 'read_back': repr(getattr(b_, 'tolist', lambda: b_)())[:300]})
+            break
+      except Exception as e:  # pylint: disable=broad-except
+        viol('dumping / loading an array raised %s' % type(e).__name__, {'dtype': dt, 'shape': list(shape), 'written': repr(arr.tolist())[:300], 'error': repr(e)[:200]})
+  except ImportError:
+    pass
 
   # ---------------------------------------------------------------- service level (SQLite file, new servicer per restart)
   service_part(rep, r, quick, viol)
